@@ -42,7 +42,7 @@ type c03Case struct {
 }
 
 var c03Profiles = []gen.Profile{gen.PInt, gen.PInt, gen.PFloat, gen.PBool, gen.PLowStr, gen.PLowStr, gen.PHighStr, gen.PNumText,
-	gen.PMixNumStr, gen.PMixIntFloat, gen.PWidth6Str, gen.PIntBig, gen.PNullOnly}
+	gen.PMixNumStr, gen.PMixIntFloat, gen.PWidth6Str, gen.PIntBig, gen.PNullOnly, gen.PMixNumNumText, gen.PMixNumNumText}
 
 func genC03(t *rapid.T) *c03Case {
 	ds := gen.GenDataset(t, gen.DatasetOpts{MinEvents: 2, MaxEvents: pt.Scale(50, 300), MaxCols: 5, Profiles: c03Profiles, NullPct: 3})
@@ -99,8 +99,8 @@ func (q c03Query) text() string {
 
 // answer is the canonical form of one query result under one layout.
 type answer struct {
-	vids   []int64             // filter: sorted; sort: in returned order
-	recs   map[int64]string    // canonical record text by _vid
+	vids   []int64          // filter: sorted; sort: in returned order
+	recs   map[int64]string // canonical record text by _vid
 	groups map[string]map[string]sut.TV
 	rej    string
 }
